@@ -1,13 +1,13 @@
 import PysamlModel.Props.C03
 #print axioms C03.C03_default_only_md
 #print axioms C03.C03_role_order_complete
+#print axioms C03.C03_key_origin
 #print axioms C03.C03_metadata_only_key_origin
 #print axioms C03.C03_unbound_key_rejected
 #print axioms C03.C03_encryption_only_key_not_bound
 #print axioms C03.C03_unknown_issuer_rejected
 #print axioms C03.C03_embedded_key_ignored
-#print axioms C03.C03_key_origin_partial
-#print axioms C03.C03_key_origin_counterexample
+#print axioms C03.C03_no_fallback_when_bound
 #print axioms C03.C03_flag_needed
 #print axioms C03.C03_handed_certs_origin
 #print axioms C03.C03_redirect_key_origin
